@@ -341,7 +341,10 @@ func c09Check(env *core.Env, cc core.Case) core.Verdict {
 
 	// --check on x never writes
 	chk := cli(env, root, nil, "regex", "format", "--check", "932100")
-	if chk.Class() == sut.ClassFault || chk.Class() == sut.ClassTimeout {
+	if chk.Class() == sut.ClassTimeout {
+		return core.Incon("watchdog hit, not judged: %s", describe(chk))
+	}
+	if chk.Class() == sut.ClassFault {
 		return core.Viol("check-crash", "format --check crashed: %s\ncontent=%s", describe(chk), core.Q(c.Content))
 	}
 	if d := sut.Diff(before, sut.Snap(root)); len(d) > 0 {
@@ -349,7 +352,10 @@ func c09Check(env *core.Env, cc core.Case) core.Verdict {
 	}
 	// f(x)
 	f1 := cli(env, root, nil, "regex", "format", "932100")
-	if f1.Class() == sut.ClassFault || f1.Class() == sut.ClassTimeout {
+	if f1.Class() == sut.ClassTimeout {
+		return core.Incon("watchdog hit, not judged: %s", describe(f1))
+	}
+	if f1.Class() == sut.ClassFault {
 		return core.Viol("format-crash", "format crashed: %s\ncontent=%s", describe(f1), core.Q(c.Content))
 	}
 	if f1.Exit != 0 {
@@ -436,7 +442,10 @@ func c10Check(env *core.Env, cc core.Case) core.Verdict {
 	v := core.Verdict{Status: core.Held, Features: []string{"lane:" + c.Lane}, Counts: map[string]int{}}
 	g1 := cli(env, root, nil, "regex", "generate", "932100")
 	f1 := cli(env, root, nil, "regex", "format", "932100")
-	if f1.Class() == sut.ClassFault || f1.Class() == sut.ClassTimeout {
+	if f1.Class() == sut.ClassTimeout {
+		return core.Incon("watchdog hit, not judged: %s", describe(f1))
+	}
+	if f1.Class() == sut.ClassFault {
 		return core.Viol("format-crash", "format crashed: %s\ncontent=%s", describe(f1), core.Q(c.Content))
 	}
 	y, _ := sut.Read(root, fmtTarget)
